@@ -6,6 +6,7 @@ package c20
 import (
 	"context"
 	"fmt"
+	"github.com/cockroachdb/errors"
 	"net"
 	"sync"
 	"testing"
@@ -201,6 +202,12 @@ func check(c *pbt.Case, r *pbt.R) {
 	direct := wire.Decode(wire.Encode(e0))
 	if a, b := fmt.Sprintf("%+v", got), fmt.Sprintf("%+v", direct); a != b {
 		r.Failf("the received error differs from a direct transfer: %+v", "%s\nvia gRPC:\n%s\n-----\ndirect:\n%s", c.Spec, a, b)
+	}
+	// "transferred directly with EncodeError/DecodeError" also means
+	// without the protobuf serialisation that the interceptors add.
+	mem := errors.DecodeError(wire.Ctx, errors.EncodeError(wire.Ctx, e0))
+	if a, b := fmt.Sprintf("%+v", got), fmt.Sprintf("%+v", mem); a != b {
+		r.Failf("the received error differs from a direct transfer: %+v", "(direct = EncodeError/DecodeError in memory)\n%s\nvia gRPC:\n%s\n-----\ndirect:\n%s", c.Spec, a, b)
 	}
 	if got.Error() != direct.Error() {
 		r.Failf("the received error differs from a direct transfer: text", "%q vs %q\n%s", got, direct, c.Spec)
